@@ -102,6 +102,12 @@ func (fr *Frame) safeOn(class string) bool {
 }
 
 func (fr *Frame) safety(class string, in ssa.Instruction, reach, cond T, what string) {
+	// whatever the class, execution continues past the instruction only when it did not panic
+	defer func() {
+		if class != "panic" {
+			fr.ex.assume(reach, cond)
+		}
+	}()
 	if !fr.safeOn(class) {
 		return
 	}
